@@ -108,7 +108,7 @@ Print Assumptions C14_faithful_refuted_auto_name.
 Example C14_current_direct_helper :
   map ks_attrs (k_states (snd (getter (run_ops [OGet; ODirectState 0 ["A"] "late"]
         (construct true (to_markup (mkMachine true [st "A" [] []] [] (Some (inl "A")) "" [] [] [] [] [] []
-                                              false false "state" false None false [])))))))
+                                              false false "state" false None QFalse [])))))))
   = [[("on_enter", AList ["late"])]].
 Proof. exact current_direct_example. Qed.
 Print Assumptions C14_current_direct_helper.
